@@ -25,10 +25,198 @@ func initEnv(c *core.Ctx) {
 	if err != nil {
 		panic(err)
 	}
-	if err := h.DB.AutoMigrate(&pred.Row{}); err != nil {
+	if err := h.DB.AutoMigrate(&pred.Row{}, &CRow{}); err != nil {
 		panic(err)
 	}
 	H = h
+}
+
+// CRow is the composite-key twin of pred.Row: the key is (id, loc), two rows share every id, and the
+// part named ID is the one gorm "prioritizes". uid identifies a row for the oracle.
+type CRow struct {
+	ID   int64  `gorm:"primaryKey;autoIncrement:false"`
+	Loc  string `gorm:"primaryKey"`
+	A    int64
+	B    *int64
+	S    string
+	T    *string
+	Mark int64
+	UID  int64 `gorm:"column:uid"`
+}
+
+func (CRow) TableName() string { return "rwc" }
+
+var locs = []string{"en", "de"}
+
+// loadC fills rwc from a reference table whose Row.ID is the shared key part (index i -> uid i+1)
+func loadC(rows []pred.Row) {
+	if _, err := H.SQL.Exec("DELETE FROM rwc"); err != nil {
+		panic(err)
+	}
+	for i, r := range rows {
+		var b, t interface{}
+		if r.B != nil {
+			b = *r.B
+		}
+		if r.T != nil {
+			t = *r.T
+		}
+		if _, err := H.SQL.Exec("INSERT INTO rwc(id,loc,a,b,s,t,mark,uid) VALUES (?,?,?,?,?,?,0,?)", r.ID, locs[i%2], r.A, b, r.S, t, i+1); err != nil {
+			panic(err)
+		}
+	}
+}
+
+// runComposite: the primary key of the model value is a unit also when it has several parts
+// (all non-zero parts count, whichever of them gorm prioritizes).
+func runComposite(c *core.Ctx, st pred.Style, base []pred.Row) {
+	r := c.R
+	if len(base) < 2 {
+		return
+	}
+	rows := append([]pred.Row(nil), base...)
+	for i := range rows {
+		rows[i].ID = int64(i/2 + 1)
+	}
+	loadC(rows)
+	for k := 0; k < 2; k++ {
+		cc := genChain(r, st, len(rows))
+		fin := core.Pick(r, []string{"UpdateCPK", "UpdatesCPK", "DeleteCPK", "FirstCPK", "FindCPK"})
+		pick := r.Intn(len(rows))
+		key := CRow{ID: rows[pick].ID, Loc: locs[pick%2]}
+		// keys with a zero part are not generated: gorm reads Model(&T{ID: 1}) as "id = 1" in an update and
+		// Delete(&T{ID: 1}) as the key (1, ''), and the statement fixes neither reading
+		partial := false
+		if r.Chance(1, 6) {
+			key.Loc = "fr" // a key that names no row although its prioritized part does
+		}
+		desc := fmt.Sprintf("%s on model %+v after %s", fin, struct {
+			ID  int64
+			Loc string
+		}{key.ID, key.Loc}, strings.SplitN(cc.desc(), "."+finNames[cc.fin], 2)[0])
+		c.Logf("CCHAIN %s", desc)
+		// the key parts are further AND units at the end of the chain: under SQL precedence they
+		// belong to the last OR group (exactly as the single-column key of the other finishers)
+		exp := pred.Infix(cc.steps)
+		lastOr := 0
+		for i, s := range cc.steps {
+			if s.Op == "or" {
+				lastOr = i
+			}
+		}
+		var before *pred.Node
+		if lastOr > 0 {
+			before = pred.Infix(cc.steps[:lastOr])
+		}
+		tail := append([]pred.GroupStep(nil), cc.steps[lastOr:]...)
+		if tail[0].Op == "or" {
+			tail[0].Op = "where"
+		}
+		last := pred.Infix(tail)
+		var want []int64
+		for i := range rows {
+			keyOK := rows[i].ID == key.ID && (key.Loc == "" || key.Loc == locs[i%2])
+			if (before != nil && before.Eval(&rows[i]) == pred.T) || (last.Eval(&rows[i]) == pred.T && keyOK) {
+				want = append(want, int64(i+1))
+			}
+		}
+		root := H.DB.Session(&gorm.Session{})
+		var got []int64
+		var err error
+		var problems []string
+		mutated := false
+		switch fin {
+		case "UpdateCPK", "UpdatesCPK":
+			m := key
+			var res *gorm.DB
+			if fin == "UpdateCPK" {
+				res = build(cc, root.Model(&m)).Update("mark", markVal)
+			} else {
+				res = build(cc, root.Model(&m)).Updates(map[string]interface{}{"mark": markVal})
+			}
+			mutated, err = true, res.Error
+			got = vdb.Ints(H.SQL, "SELECT uid FROM rwc WHERE mark = ? ORDER BY uid", markVal)
+			if err == nil && res.RowsAffected != int64(len(got)) {
+				problems = append(problems, fmt.Sprintf("RowsAffected=%d but %d rows changed", res.RowsAffected, len(got)))
+			}
+		case "DeleteCPK":
+			m := key
+			res := build(cc, root).Delete(&m)
+			mutated, err = true, res.Error
+			left := map[int64]bool{}
+			for _, id := range vdb.Ints(H.SQL, "SELECT uid FROM rwc") {
+				left[id] = true
+			}
+			for i := range rows {
+				if !left[int64(i+1)] {
+					got = append(got, int64(i+1))
+				}
+			}
+		case "FirstCPK":
+			out := key
+			res := build(cc, root).First(&out)
+			if errors.Is(res.Error, gorm.ErrRecordNotFound) {
+				got = nil
+			} else if err = res.Error; err == nil {
+				got = []int64{out.UID}
+			}
+		case "FindCPK":
+			var out []CRow
+			m := key
+			res := build(cc, root.Model(&m)).Find(&out)
+			err = res.Error
+			// Model(value) with a key: the documented reading is that the model's key narrows updates and
+			// deletes; for Find into another destination gorm adds no key condition - observe only, and
+			// compare with the chain alone
+			want = nil
+			for i := range rows {
+				if exp.Eval(&rows[i]) == pred.T {
+					want = append(want, int64(i+1))
+				}
+			}
+			for _, o := range out {
+				got = append(got, o.UID)
+			}
+			pred.SortIDs(got)
+		}
+		c.Inc("composite_chains")
+		c.Inc("fin_" + fin)
+		if err != nil {
+			problems = append(problems, "error: "+err.Error())
+		} else if fin == "FirstCPK" {
+			// the lowest key among the matches; rows sharing the prioritized key part are not ordered
+			if len(want) == 0 && len(got) != 0 {
+				problems = append(problems, fmt.Sprintf("First returned uid %v, reference selects nothing", got))
+			} else if len(want) > 0 {
+				ok := false
+				for _, w := range want {
+					if len(got) == 1 && got[0] == w && rows[w-1].ID == rows[want[0]-1].ID {
+						ok = true
+					}
+				}
+				if !ok {
+					problems = append(problems, fmt.Sprintf("First returned uid %v, reference selects %v (lowest key part id %d)", got, want, rows[want[0]-1].ID))
+				}
+			}
+		} else if !pred.IDsEqual(got, want) {
+			problems = append(problems, fmt.Sprintf("observed uids %v, reference uids %v", got, want))
+		}
+		if mutated {
+			loadC(rows)
+		}
+		if len(problems) > 0 {
+			tab := []string{}
+			for i, rw := range rows {
+				tab = append(tab, fmt.Sprintf("uid %d loc %s %s", i+1, locs[i%2], rw.String()))
+			}
+			c.Violation("composite/"+fin, map[string]interface{}{"chain": desc, "expected_predicate": exp.String(), "problems": problems, "table": tab})
+			continue
+		}
+		if len(want) > 0 {
+			c.Shape("composite", fin, partial, cc.shape())
+			c.Inc("nontrivial_composite")
+		}
+	}
 }
 
 func load(rows []pred.Row) {
@@ -333,18 +521,20 @@ func run(c *core.Ctx) {
 			c.Sample(map[string]interface{}{"chain": desc, "predicate": exp.String(), "rows": len(table), "ids": want, "sql": sqlText})
 		}
 	}
+	runComposite(c, st, table)
 }
 
 var Engine = &core.Engine{
 	ID:    "C02",
 	Level: "exploration",
-	Rule: "seeded random tables (0..12 rows, NULLs, duplicates) x chains of 1..4 Where/Not/Or calls (first call never Or) whose units are random condition trees (depth<=3) rendered as raw '?' string, @named string, map, struct, clause.Expression tree or grouped sub-builder, with random keyword case / whitespace / redundant parentheses in 3 of 4 cases, " +
-		"x finishers Find, Find+inline, Pluck, Count, Update, Delete, First/Update/Delete with primary key in the model value; distinct = (op, form, tree shape, canonical-or-hostile rendering) per unit + finisher; non-trivial = the reference selects neither no row nor every row",
+	Rule: "seeded random tables (0..12 rows, NULLs, duplicates) x chains of 1..4 Where/Not/Or calls (first call never Or) whose units are random condition trees (depth<=3) rendered as raw '?' string, @named string, map, struct, clause.Expression tree (Eq/Neq/Lt/Lte/Gt/Gte/Like/IN/And/Or/Not), grouped sub-builder or several of those handed to one call, with random keyword case / whitespace / redundant parentheses in 3 of 4 cases, " +
+		"x finishers Find, Find+inline, Pluck, Count, Update, Delete, First/Update/Delete with primary key in the model value, and Update/Updates/Delete/First with a (full or unmatched) two-part key in the model value on a composite-key twin table; distinct = (op, form, tree shape, canonical-or-hostile rendering) per unit + finisher; non-trivial = the reference selects neither no row nor every row",
 	Assumptions: []string{
 		"SQLite evaluates the emitted SQL correctly (it is the judge of what the SQL text means)",
 		"lower-case ASCII strings only, so SQLite's case-insensitive LIKE agrees with the reference",
 		"Not over an AND-combined unit whose members are all raw strings / non-negatable groups is not generated: the statement's 'every member false' and the pinned test-suite expectation NOT (a AND b) disagree there (DESIGN section 4)",
 		"Not over a grouped sub-builder mixing Where and Or is not generated (the statement defines negation for OR units and AND-combined units only)",
+		"composite keys in the model value always have all parts non-zero (gorm reads a partly zero key differently in Update and Delete, the statement fixes neither); several condition values in one call are never given to Not",
 	},
 	Cases: func(tier string) int {
 		if tier == "thorough" {
